@@ -10,7 +10,8 @@ def genParams : Params :=
   { dirty := DSGen.bloom_DIRTY_BITS_VALUE, preEmpty := DSGen.bloom_PREAMBLE_LONGS_EMPTY,
     preStd := DSGen.bloom_PREAMBLE_LONGS_STANDARD, family := DSGen.bloom_FAMILY_ID, serVer := DSGen.bloom_SER_VER,
     emptyMask := DSGen.bloom_EMPTY_FLAG_MASK, nbsOff := DSGen.bloom_NUM_BITS_SET_OFFSET_BYTES,
-    bitsOff := DSGen.bloom_BIT_ARRAY_OFFSET_BYTES, maxBits := DSGen.bloom_MAX_FILTER_SIZE_BITS }
+    bitsOff := DSGen.bloom_BIT_ARRAY_OFFSET_BYTES, maxBits := DSGen.bloom_MAX_FILTER_SIZE_BITS,
+    strict := DSGen.bloom_READER_STRICT }
 
 def genPrimes : XXH.Primes :=
   { p1 := UInt64.ofNat DSGen.xxh_Prime1, p2 := UInt64.ofNat DSGen.xxh_Prime2, p3 := UInt64.ofNat DSGen.xxh_Prime3,
